@@ -224,6 +224,24 @@ def relex(toks, kt, construct):
                 r = q
                 while r < len(inner) and is_gap(inner[r]):
                     r += 1
+                if r < len(inner) and inner[r] == ('w', '.'):
+                    # field access / method call: target gap `.` gap name [`(` `)`]
+                    g1 = inner[q:r]
+                    r += 1
+                    r2 = r
+                    while r2 < len(inner) and is_gap(inner[r2]):
+                        r2 += 1
+                    if not (r2 < len(inner) and inner[r2][0] == 'w' and re.match(r'^[A-Za-z_]', inner[r2][1])):
+                        return None
+                    g2 = inner[r:r2]
+                    node = Node(kt.k('FieldAccess'), children=[node] + gap_nodes(kt, g1) + [Node(kt.k('Dot'), text=Str.lit('.'))] + gap_nodes(kt, g2) +
+                                [Node(kt.k('Ident'), text=Str.lit(inner[r2][1]))])
+                    q = r2 + 1
+                    if q + 1 < len(inner) + 0 and inner[q] == ('w', '(') and q + 1 < len(inner) and inner[q + 1] == ('w', ')'):
+                        node = Node(kt.k('FuncCall'), children=[node, Node(kt.k('Args'), children=[Node(kt.k('LeftParen'), text=Str.lit('(')),
+                                                                                                    Node(kt.k('RightParen'), text=Str.lit(')'))])])
+                        q += 2
+                    continue
                 if not (r < len(inner) and inner[r] in (('w', '+'), ('w', '-'))):
                     break
                 g1 = inner[q:r]
@@ -398,7 +416,7 @@ def source_of(info):
 
 def confirm(S, info):
     body = (content_source(info) if info.get('construct') == 'content' else binary_source(info) if info.get('binary')
-            else equation_source(info) if info.get('construct') == 'equation' else source_of(info))
+            else equation_source(info) if info.get('construct') == 'equation' else dot_source(info) if info.get('dotchain') else source_of(info))
     for src in ([body + '\n'] if not info.get('suppressed') else ['text ' + body + ' more\n']):
         if S.driver.call('erroneous', hexs(src))[1] == '1':
             continue
@@ -866,3 +884,90 @@ def equation_source(info):
             s += info['gaps'][i]
         s += {'x': 'abcdefgh'[i], 'lb': '\\', 'al': '&'}[a]
     return s + info['gaps'][-1] + '$'
+
+
+# ---------------------------------------------------------------------------------------------------------------
+# dot chains inside a list: `f(a.b().c)`
+
+
+def explore_dotchain(S, links=2, gaps=B_GAPS, constructs=('call',)):
+    kt = T.KT
+    core = S.core
+    f_attr = S.find_fn(core, 'AttrStore::new')
+    f_expr = S.find_fn(core, 'PrettyPrinter::convert_expr')
+    found = []
+    tasks = []
+    for construct in constructs:
+        for n in range(1, links + 1):
+            for gs in itertools.product(gaps, repeat=2 * n):
+                for calls in itertools.product((False, True), repeat=n):
+                    if n > 1 and not calls[0]:
+                        continue        # keep the space small: the first link is a call when there are several
+
+                    def body(ctx, gs=gs, calls=calls, construct=construct, n=n):
+                        m = S.machine(core, STD, ctx)
+                        m.max_depth = 200
+                        node = Node(kt.k('Ident'), text=Str.lit('i0'))
+                        for k in range(1, n + 1):
+                            node = Node(kt.k('FieldAccess'), children=[node] + gap_nodes(kt, gap_tokens(gs[2 * k - 2])) + [Node(kt.k('Dot'), text=Str.lit('.'))] +
+                                        gap_nodes(kt, gap_tokens(gs[2 * k - 1])) + [Node(kt.k('Ident'), text=Str.lit('m%d' % k))])
+                            if calls[k - 1]:
+                                node = Node(kt.k('FuncCall'), children=[node, Node(kt.k('Args'), children=[Node(kt.k('LeftParen'), text=Str.lit('(')),
+                                                                                                            Node(kt.k('RightParen'), text=Str.lit(')'))])])
+                        kids = [Node(kt.k('LeftParen'), text=Str.lit('(')), node]
+                        if construct == 'array':
+                            kids.append(Node(kt.k('Comma'), text=Str.lit(',')))
+                        kids.append(Node(kt.k('RightParen'), text=Str.lit(')')))
+                        root = wrap(kt, construct, kids)
+                        cfg = Agg('Config', None, (2, z3.BitVec('cfg_width', 64), 2, False), pp.CFG_NAMES)
+                        c0_ = pp.context(mode=1)
+
+                        def describe(mdl):
+                            return dict(construct=construct, dotchain=True, gaps=list(gs), calls=list(calls), suppressed=model_bool(mdl, c0_.get('break_suppressed')))
+
+                        def convert(x):
+                            attrs = m.call_fn(f_attr, [x])
+                            pr, _ = pp.printer(m, cfg=cfg, attrs=attrs)
+                            return m.call_fn(f_expr, [pr, c0_, T.make_cast(m, x, 'Expr')])
+                        try:
+                            d1 = convert(root)
+                        except Panic as p:
+                            S.absorb(m)
+                            ctx.must_hold(False, 'C05:list-construct-panic', lambda mdl: dict(describe(mdl), panic=p.msg))
+                            return
+                        for mode, pf in (('broken', False), ('flat-where-possible', True)):
+                            render.prefer_flat = pf
+                            at1 = []
+                            render(d1, False, at1)
+                            t1 = text_of(at1)
+                            if t1 is None:
+                                continue
+                            root2 = relex(t1, kt, construct)
+                            if root2 is None:
+                                ctx.witness('output not read back (%s)' % mode)
+                                continue
+                            try:
+                                d2 = convert(root2)
+                            except Panic as p:
+                                ctx.must_hold(False, 'C05:list-construct-panic', lambda mdl, t1=t1: dict(describe(mdl), second_pass_input=show_tokens(t1), panic=p.msg))
+                                continue
+                            render.prefer_flat = pf
+                            at2 = []
+                            render(d2, False, at2)
+                            t2 = text_of(at2)
+                            ctx.must_hold(t2 == t1, 'C03:dot-chain-layout-is-not-a-fixed-point',
+                                          lambda mdl, t1=t1, t2=t2, mode=mode: dict(describe(mdl), layout=mode, first_pass=show_tokens(t1), second_pass=show_tokens(t2 or [])))
+                            ctx.witness('second pass run (%s)' % mode)
+                        S.absorb(m)
+                    src = dot_source(dict(gaps=gs, calls=calls, construct=construct))
+                    tasks.append(('twopass.dot[%s]' % show(src), 'two passes of the real printer over %s' % show(src), body, dict(links=n)))
+    for ob, viol in S.explore_batch(tasks):
+        for lab, mdl, info in viol:
+            found.append((lab, info))
+    return found
+
+
+def dot_source(info):
+    gs, calls = info['gaps'], info['calls']
+    src = 'i0' + ''.join(gs[2 * k - 2] + '.' + gs[2 * k - 1] + 'm%d' % k + ('()' if calls[k - 1] else '') for k in range(1, len(calls) + 1))
+    return '#f(%s)' % src if info['construct'] == 'call' else '#(%s,)' % src
